@@ -17,7 +17,7 @@ import re
 
 from ..bounds import Engine, Ptr, Obj, Obligation, UNKNOWN, St, _ev_all, btype
 from ..lin import Lin, lin, ge, le, lt, gt, eq, entails
-from ..facts import VERIF, load_program, children, strip_all_casts, walk, CALL_KINDS
+from ..facts import AnalysisBroken, VERIF, load_program, children, strip_all_casts, walk, CALL_KINDS
 from ..rules import callee_is, call_args
 
 
@@ -149,6 +149,29 @@ def bind_param(eng, st, f, p):
 def m_fs_method(eng, n, st, func, want):
     """cheap exact models for the trivial accessors (so that they work on any FixedString object)"""
     callee = n.get('callee', '')
+    mi = re.match(r'celma::common::FixedString<(\d+)>::(c?begin|c?end)$', callee)
+    if mi:
+        # begin()/end() of the string: an iterator bound to the object, at position 0 (the end marker for an empty
+        # string) resp. at the end marker (the marker is the in-class initialiser of the iterator's index)
+        S = int(mi.group(1))
+        objn, args = eng.args_of(n)
+        out = []
+        for ov, s1 in (eng.ev(objn, st, func) if objn is not None else [(Obj('this', 'this'), st)]):
+            if not isinstance(ov, Obj):
+                return None
+            ln, region = fs_fields(eng, s1, ov.name, S)
+            variants = [(lin(END), s1)]
+            if mi.group(2).endswith('begin'):
+                variants = []
+                for empty, s2 in eng.compare('==', ln, lin(0), s1, n, func):
+                    variants.append((lin(END) if empty else lin(0), s2))
+            for ix, s2 in variants:
+                name = 'it@%s#%d' % (n['id'], next(eng.counter))
+                s2.fields[(name, 'mpObject')] = Obj(ov.name, 'celma::common::FixedString<%d>' % S)
+                s2.fields[(name, 'mIndex')] = ix
+                s2.ftypes[(name, 'mIndex')] = 'unsigned long'
+                out.append((Obj(name, btype(n.get('t') or 'celma::common::detail::FixedStringIterator')), s2))
+        return out
     m = re.match(r'celma::common::FixedString<(\d+)>::(length|c_str|data|empty)$', callee)
     if not m:
         return None
@@ -514,7 +537,10 @@ def run(chk):
     sub._known = []
     eng11 = c11.make_engine(prog)
     for L in grid if chk.tier == 'quick' else [10, 255, 65536]:
-        c11.r4_mutators(sub, prog, eng11, L)
+        _ns, _nc, und, _un = c11.r4_mutators(sub, prog, eng11, L)
+        if und:
+            raise AnalysisBroken('%d position case(s) of the mutators can not be resolved any more (strlen clause, L=%d)'
+                                 % (und, L))
         c11.r4_swap(sub, prog, eng11, L)
         c11.r4_sprintf(sub, prog, eng11, L)
     for o in sub.obligations:
